@@ -72,7 +72,14 @@ fn n(x: impl TryInto<i128>) -> J {
 
 impl<'tcx> Extractor<'tcx> {
     fn path(&self, did: DefId) -> String {
-        with_no_trimmed_paths!(self.tcx.def_path_str(did))
+        let s = with_no_trimmed_paths!(self.tcx.def_path_str(did));
+        // items inside anonymous `const _: () = { .. }` blocks (bitflags!, derives) can share a printed path:
+        // disambiguate with the verbose def path
+        if s.contains("::_::") || s.ends_with("::_") {
+            format!("{}@{}", s, self.tcx.def_path(did).to_string_no_crate_verbose())
+        } else {
+            s
+        }
     }
     fn ty_s(&self, t: Ty<'tcx>) -> String {
         with_no_trimmed_paths!(t.to_string())
